@@ -138,6 +138,12 @@ func WellFormed(p *ps.Program) (bool, []string) {
 	if instr && p.Emitters == 0 {
 		diag["other"] = true
 	}
+	switch p.Quirk {
+	case "sig-prednamedbool", "sig-pred2", "sig-predvariadic":
+		diag["other"] = true // unsupported predicate signature
+	case "sig-fbarity":
+		diag["fallback"] = true
+	}
 	if len(p.Tasks) == 0 {
 		diag["other"] = true
 	}
